@@ -173,6 +173,9 @@ theorem guard_ok {n : Nat} {a : List Int} {b : Bool} {f : Doms → Option Doms} 
 
 /-! ### well-formedness: every variable mentioned exists -/
 
+/-- tasks well-formed for `n` variables: start views over existing variables, non-negative usages -/
+def tasksWf (n : Nat) (ts : List Task) : Prop := ∀ k ∈ ts, k.start.var < n ∧ 0 ≤ k.use
+
 def PropInst.Wf (n : Nat) : PropInst → Prop
   | .linLe ts _ => ∀ t ∈ ts, t.var < n
   | .linNe ts _ => ∀ t ∈ ts, t.var < n
@@ -182,6 +185,7 @@ def PropInst.Wf (n : Nat) : PropInst → Prop
   | .div a b c => a.var < n ∧ b.var < n ∧ c.var < n
   | .element i xs r => i.var < n ∧ (∀ t ∈ xs, t.var < n) ∧ r.var < n
   | .clause ls => ∀ p ∈ ls, p.var < n
+  | .cumulative _ ts _ => tasksWf n ts
   | .reified r p => r.var < n ∧ p.Wf n
 
 /-! ### LinearLeq -/
